@@ -244,7 +244,7 @@ func reportBoundary(bc boundaryCase, ep entryPoint, dl delivery, clause string) 
 	min := withCount(cur, path, hi)
 	mclause, det := ep.eval(min, dl)
 	if mclause == "" || fails(withCount(cur, path, hi-1)) {
-		run.EngineError("boundary: reduction of %s with %d entries lost the failure", sigName(bc.d), bc.n)
+		unstable(fmt.Sprintf("codec/%s/%s/count", ep.name, clause), ep, dl, clause, sigName(bc.d), fmt.Sprintf("a large container of %d entries", bc.n), refmodel.Encode(bc.d))
 		return
 	}
 	pos := "top"
